@@ -406,6 +406,10 @@ red_case_s = st.fixed_dictionaries({
     "hops": st.lists(hop_s, max_size=6),
     "final": st.sampled_from(["ok", "ok", "ok", "404", "eof", "malformed"]),
     "max_clients": st.sampled_from([1, 10]),
+    # channel through which the redirect policy reaches the client: per request, or as client-level
+    # `defaults=dict(...)` (constructor / AsyncHTTPClient.configure kwargs) with the request leaving it unset
+    "mr_via_defaults": st.sampled_from([False, False, True]),
+    "follow_via_defaults": st.sampled_from([False, False, True]),
 })
 
 
@@ -578,8 +582,11 @@ def build_request(case, start):
             headers.add(n, v)
     if case["auth"]:
         kw["auth_username"], kw["auth_password"] = "au", "apw"
-    req = HTTPRequest(start, method=method, headers=headers, follow_redirects=case["follow"],
-                      max_redirects=case["max_redirects"], **kw)
+    if not case.get("follow_via_defaults"):
+        kw["follow_redirects"] = case["follow"]
+    if not case.get("mr_via_defaults"):
+        kw["max_redirects"] = case["max_redirects"]
+    req = HTTPRequest(start, method=method, headers=headers, **kw)
     secrets = set()
     if case["hdr_auth"]:
         secrets.add(case["hdr_auth"])
@@ -597,7 +604,13 @@ def run_redirects(ctx, case):
 
     async def scenario():
         fake = ch.FakeTCPClient()
-        client = ch.make_client(fake, max_clients=case["max_clients"])
+        defaults = {}
+        if case.get("mr_via_defaults"):
+            defaults["max_redirects"] = case["max_redirects"]
+        if case.get("follow_via_defaults"):
+            defaults["follow_redirects"] = case["follow"]
+        ckw = {"defaults": defaults} if defaults else {}
+        client = ch.make_client(fake, max_clients=case["max_clients"], **ckw)
         req, secrets, has_cookie = build_request(case, start)
         st_["secrets"], st_["has_cookie"] = secrets, has_cookie
         fut = client.fetch(req, raise_error=False)
@@ -750,6 +763,12 @@ def run_redirects(ctx, case):
         labels.add("followed")
     if len(case["hops"]) > case["max_redirects"] and case["follow"]:
         labels.add("limit_reached")
+        if case.get("mr_via_defaults"):
+            labels.add("limit_reached_via_client_defaults")
+    if case.get("mr_via_defaults"):
+        labels.add("max_redirects_via_client_defaults")
+    if case.get("follow_via_defaults"):
+        labels.add("follow_redirects_via_client_defaults")
     if len(case["cookies"]) >= 2 and case["hdr_mode"] == "add":
         labels.add("multi_valued_cookie")
     if "@" in start:
@@ -779,7 +798,8 @@ def case_method_has_body(e):
 def _rbase(**kw):
     c = {"method": "GET", "body": b"data=1", "producer": False, "producer_cl": False, "url": "plain", "hdr_mode": "add",
          "cookies": ["a=1", "sid=SECRET"], "cookie_name": "Cookie", "hdr_auth": "Bearer tok", "hdr_auth_twice": False,
-         "auth": False, "ctype": True, "max_redirects": 5, "follow": True, "hops": [], "final": "ok", "max_clients": 10}
+         "auth": False, "ctype": True, "max_redirects": 5, "follow": True, "hops": [], "final": "ok", "max_clients": 10,
+         "mr_via_defaults": False, "follow_via_defaults": False}
     c.update(kw)
     return c
 
@@ -797,9 +817,14 @@ def red_grid():
                              hdr_auth_twice=False, cookie_name=["Cookie", "cookie", "COOKIE"][mode],
                              hops=[{"status": 302, "loc": loc, "interim": False, "eof": False},
                                    {"status": 307, "loc": "rel_path", "interim": False, "eof": True}])
-    for n in range(0, 6):
+    for n in range(0, 7):
         for m in range(0, 6):
-            yield _rbase(max_redirects=m, hops=[{"status": 302, "loc": "rel_abs_path", "interim": False, "eof": True}] * n)
+            for via in (False, True):
+                yield _rbase(max_redirects=m, mr_via_defaults=via, follow_via_defaults=via and m % 2 == 1,
+                             hops=[{"status": 302, "loc": "rel_abs_path", "interim": False, "eof": True}] * n)
+    for follow in (True, False):
+        yield _rbase(follow=follow, follow_via_defaults=True, max_redirects=3, mr_via_defaults=not follow,
+                     hops=[{"status": 301, "loc": "other_host", "interim": False, "eof": True}] * 2)
 
 
 PARTS = {"admission": run_admission, "redirects": run_redirects, "redirect_grid": run_redirects}
